@@ -179,3 +179,5 @@ func VerifC14Recv() {
 	}
 	vapi.Reach("recv-end")
 }
+
+func vconnPipe() (*vconn.Conn, *vconn.Conn) { return vconn.Pipe(true) }
